@@ -130,7 +130,11 @@ class HSTRPDatagramProtocol(DatagramProtocol, LoggingTrait):
 
         self.hstrp_last_contact = datetime.now()
 
-        if pdu.pkt_type.is_connect:
+        if pdu.pkt_type.is_ack:
+            # received confirmation from peer, never answered
+            was_handled = True
+            was_confirmed = True
+        elif pdu.pkt_type.is_connect:
             # connection request
             was_handled = True
             was_confirmed = True
